@@ -181,6 +181,29 @@ def rule_every_retrieval_cached(ctx, rid="R15.3b"):
     return r
 
 
+def registry_snapshot(f, e, depth=0):
+    """e evaluates to the pairs/mapping (id -> class.META_SCHEMA) for *every* entry of meta_schemas.items()."""
+    if depth > 3 or e is None:
+        return False
+    if isinstance(e, ast.Name):
+        defs = [x.value for x in walk_body(f) if isinstance(x, ast.Assign) and any(isinstance(t, ast.Name) and t.id == e.id for t in x.targets)]
+        # the temporary must hold exactly the snapshot: used once, never updated with other (raw) keys
+        uses = [x for x in walk_body(f) if isinstance(x, ast.Name) and x.id == e.id and isinstance(x.ctx, ast.Load)]
+        return len(defs) == 1 and len(uses) == 1 and registry_snapshot(f, defs[0], depth + 1)
+    if isinstance(e, ast.Call) and norm(e.func) in ("dict", "list", "tuple") and len(e.args) == 1 and not e.keywords:
+        return registry_snapshot(f, e.args[0], depth + 1)
+    if isinstance(e, (ast.GeneratorExp, ast.ListComp)) and len(e.generators) == 1:
+        g = e.generators[0]
+        return (norm(g.iter) == "meta_schemas.items()" and not g.ifs and isinstance(e.elt, ast.Tuple) and len(e.elt.elts) == 2
+                and isinstance(g.target, ast.Tuple) and len(g.target.elts) == 2 and norm(e.elt.elts[0]) == norm(g.target.elts[0])
+                and norm(e.elt.elts[1]) == norm(g.target.elts[1]) + ".META_SCHEMA")
+    if isinstance(e, ast.DictComp) and len(e.generators) == 1:
+        g = e.generators[0]
+        return (norm(g.iter) == "meta_schemas.items()" and not g.ifs and isinstance(g.target, ast.Tuple) and len(g.target.elts) == 2
+                and norm(e.key) == norm(g.target.elts[0]) and norm(e.value) == norm(g.target.elts[1]) + ".META_SCHEMA")
+    return False
+
+
 def rule_seeding(ctx, rid="R15.4"):
     prog = ctx.prog
     f = find_method(prog, "validators.RefResolver", "__init__")
@@ -191,14 +214,8 @@ def rule_seeding(ctx, rid="R15.4"):
         s = norm(n)
         if isinstance(n, ast.Assign) and norm(n.targets[0]) == "self.store":
             v = n.value
-            ok = (isinstance(v, ast.Call) and norm(v.func).endswith("URIDict") and len(v.args) == 1
-                  and isinstance(v.args[0], ast.GeneratorExp))
-            if ok:
-                g = v.args[0]
-                gen = g.generators[0]
-                ok = (norm(gen.iter) == "meta_schemas.items()" and not gen.ifs and isinstance(g.elt, ast.Tuple) and len(g.elt.elts) == 2
-                      and isinstance(gen.target, ast.Tuple) and norm(g.elt.elts[0]) == norm(gen.target.elts[0])
-                      and norm(g.elt.elts[1]) == norm(gen.target.elts[1]) + ".META_SCHEMA")
+            ok = (isinstance(v, ast.Call) and norm(v.func).endswith("URIDict") and len(v.args) == 1 and not v.keywords
+                  and registry_snapshot(f, v.args[0]))
             if ok:
                 order.append("registry")
                 r.ok(site(f, n), "URIDict((id, class.META_SCHEMA) for every (id, class) in meta_schemas.items())")
@@ -258,14 +275,20 @@ def rule_uridict(ctx, rid="R15.5"):
                 where = "jsonschema/%s.py:%d" % (m.name, n.lineno)
                 if not n.args and not n.keywords:
                     r.ok(where, "URIDict() empty")
-                elif len(n.args) == 1 and isinstance(n.args[0], ast.GeneratorExp) and ".items()" in norm(n.args[0].generators[0].iter) \
-                        and norm(n.args[0].generators[0].iter).split(".")[0] in ("meta_schemas",):
+                elif len(n.args) == 1 and not n.keywords and _site_snapshot(prog, m, n):
                     r.ok(where, "entries drawn from another URIDict's items(): keys already normal")
                 else:
                     r.fail("%s|URIDict-raw-entries|%s" % (m.name, norm(n)[:60]), where, "URIDict constructed with raw keys (the constructor does not normalise): %s" % norm(n)[:80])
     if n_sites < 2:
         r.fail("URIDict|call-sites:%d" % n_sites, "jsonschema", "expected at least 2 URIDict construction sites")
     return r
+
+
+def _site_snapshot(prog, m, call):
+    for f in prog.funcs.values():
+        if f.mod is m and any(x is call for x in walk_body(f)):
+            return registry_snapshot(f, call.args[0])
+    return False
 
 
 def rule_caches(ctx, rid="R15.6"):
